@@ -935,7 +935,7 @@ func c11Configs(r *ev.Run) []c11Config {
 				}
 				out = append(out, c11Config{Group: int(module.TransactionGroupNormal), Startup: "base-force-committed", Th0: th0,
 					Universe: []c11TxDef{{"x", ts}, {"y", ts2}}, BlockTS: blockTS, BlockTH: ths, MaxLive: 2, MaxList: 2,
-					Depth: depth2, Restart: r.Thorough(), EvalFull: r.Thorough()})
+					Depth: depth2, Restart: r.Thorough(), EvalFull: false})
 			}
 		}
 	}
